@@ -149,6 +149,15 @@ def falsify(ctx, deep=False):
             p.update({"kind": "vk", "nx": 8, "ps": 1, "r0": 1.0, "L0": 20.0, "extra": 1, "family": False})       # integer pixel scale
         if k == 3:
             p.update({"kind": "fried", "nx": 6, "ps": 2, "r0": 1.5, "L0": 30.0, "extra": 2, "family": False})
+        if k == 6:
+            # fine sampling of a long outer scale (L0 / pixel between 5 000 and 15 000: centimetre pixels, L0 of tens of metres),
+            # below the regime of the known finding (>= 2e4) -- the recursion is stable here and must stay so
+            q_ = rng.choice([5000.0, 8000.0, 12000.0, 15000.0]); ps_ = rng.choice([0.005, 0.01, 0.02])
+            p.update({"kind": "vk", "nx": rng.choice([8, 16]), "ps": ps_, "r0": rng.uniform(0.05, 0.3), "L0": q_ * ps_, "extra": rng.choice([1, 2]), "family": False, "long": False, "steps": 40})
+        if k == 7:
+            # bench-scale grid (tens of microns per pixel): nothing may depend on the absolute length unit
+            ps_ = rng.loguniform(2e-5, 1e-4)
+            p.update({"kind": "vk", "nx": 8, "ps": ps_, "r0": ps_ * rng.uniform(1.0, 5.0), "L0": ps_ * rng.uniform(50, 1000), "extra": 2, "family": False, "long": False, "steps": 40})
         if k == 4:
             # a screen taller than 64 rows over a history of three times its length
             p.update({"kind": "vk", "nx": rng.choice([70, 80, 97]), "ps": 0.1, "r0": 0.2, "L0": 25.0, "extra": rng.choice([1, 2]), "family": False, "long": True})
